@@ -296,7 +296,10 @@ func runC31(s *simrt.Sim) {
 		}
 		// (the property names the conditions that must be errors; elsewhere the reference being
 		// stricter than bfe is not a finding as long as the emitted fields agree)
-		if cls := ""; rerr != nil && gerr == nil && func() bool { cls = errClass(rerr); return cls == "huffman" || cls == "index" || cls == "size-update" || cls == "integer" }() {
+		if cls := ""; rerr != nil && gerr == nil && func() bool {
+			cls = errClass(rerr)
+			return cls == "huffman" || cls == "index" || cls == "size-update" || cls == "integer"
+		}() {
 			s.FailK("C31.strict", "invalid-block-accepted:"+errClass(rerr), "block %x: the reference decoder reports %q, bfe's decoder accepts it and emits %d fields", clipb(block, 80), rerr, len(got))
 			return
 		}
